@@ -385,7 +385,9 @@ namespace TAO_PEGTL_NAMESPACE
 
       [[nodiscard]] const char* begin_of_line( const TAO_PEGTL_NAMESPACE::position& p ) const noexcept
       {
-         return at( p ) - ( p.column - 1 );
+         const char* a = at( p );
+         // The first line of an input constructed with an initial column other than 1 starts at begin().
+         return ( static_cast< std::size_t >( a - this->begin() ) < ( p.column - 1 ) ) ? this->begin() : ( a - ( p.column - 1 ) );
       }
 
       [[nodiscard]] const char* end_of_line( const TAO_PEGTL_NAMESPACE::position& p ) const noexcept
